@@ -191,6 +191,9 @@ func lookupMethod(i *interpreter, typ types.Type, meth *types.Func) *ssa.Functio
 }
 
 func (i *interpreter) runtimeErr(msg string) value {
+	if debugSlow {
+		fmt.Fprintf(os.Stderr, "runtime error: %s at %s\n", msg, i.where())
+	}
 	return iface{i.runtimeErrorString, "runtime error: " + msg}
 }
 
